@@ -64,7 +64,7 @@ claim("C07", "model_checking",
       "Every interleaving of up to 4 block tasks (at hook granularity), crossed with a failure of each task at each protocol step, data-caused failures, end-of-stream and skipped-block outcomes, is executed on the real Writer/Reader and its trace must be accepted by the 5-clause monitor; N=4 is complete in thorough and capped per plan in quick.",
       "Trusts: hook points cover every access to the shared counter; the reduction advances non-conflicting steps deterministically.", "DESIGN.md 4/C07")
 claim("C10", "exploration",
-      "differential property-based testing against a vendored pinned reference build (encoder and decoder) plus a 287-stream golden corpus with recorded SHA-256",
+      "differential property-based testing against a vendored pinned reference build (encoder and decoder) plus a 290-stream golden corpus with recorded SHA-256",
       "Streams are written by the frozen reference encoder and must decode with the current decoder to exactly what the reference decoder returns; archived streams must keep decoding to their recorded originals.",
       "Trusts: the vendored snapshot of commit 76efab5 as the definition of format 6.", "DESIGN.md 4/C10")
 claim("C18", "exploration",
